@@ -178,14 +178,6 @@ def handleOpenFault : List Sx → Sx
     | some e => Sx.ok (encRes (fsOpenFails (Code := Nat) fsOpenCaught e))
     | none => Sx.bad
 
-/-- `(bc-fs-verdict isOSError propagated renderedCurrentSource)` → the Spec's judgement of a load under a failing file
-    operation -/
-def handleFsVerdict : List Sx → Sx
-  | [a, b, c] => match a.toBool?, b.toBool?, c.toBool? with
-    | some a, some b, some c => Sx.ok (encVerdict (fsFaultVerdict a b c))
-    | _, _, _ => Sx.bad
-  | _ => Sx.bad
-
 /-- `(bc-escapes)` → OSError classes that would escape from the rename step / from `open` in load_bytecode, by the
     handlers read from the source (counterexample finders) -/
 def handleEscapes : List Sx → Sx
@@ -196,7 +188,7 @@ def handleEscapes : List Sx → Sx
 
 def handlers : List (String × (List Sx → Sx)) :=
   [("bc-load", handleLoad), ("bc-crash", handleCrash), ("bc-fault", handleFault), ("bc-history", handleHistory), ("bc-verdict", handleVerdict),
-   ("bc-sites", handleSites), ("bc-open-fault", handleOpenFault), ("bc-fs-verdict", handleFsVerdict),
+   ("bc-sites", handleSites), ("bc-open-fault", handleOpenFault),
    ("bc-escapes", handleEscapes)]
 
 end JinjaV.Wire.BcCache
